@@ -10,6 +10,7 @@ import (
 	"os"
 	"sync"
 
+	kanzi "github.com/flanglet/kanzi-go/v2"
 	"github.com/flanglet/kanzi-go/v2/bitstream"
 	"github.com/flanglet/kanzi-go/v2/entropy"
 	"kzverif/fio"
@@ -24,6 +25,38 @@ type entCase struct {
 	Fam   string `json:"fam"` // data family: a gen shape, or "alpha:<k>", or "rare:<r>:<d>"
 	Seed  int64  `json:"seed"`
 	Lead  int    `json:"lead"` // bits written before the block (alignment of the block in the bitstream)
+	// constructor parameters (chunk size, log range) when the codec is built by its own constructor instead of the factory:
+	// HUFFMAN [chunk], RANGE [chunk, logRange], ANS0/ANS1 [chunk, logRange]
+	Args []uint `json:"args,omitempty"`
+}
+
+// directCodec builds the codec of a case through its public constructor with explicit parameters
+func directEncoder(c entCase, obs kanzi.OutputBitStream) (kanzi.EntropyEncoder, error) {
+	switch c.Codec {
+	case "HUFFMAN":
+		return entropy.NewHuffmanEncoder(obs, int(c.Args[0]))
+	case "RANGE":
+		return entropy.NewRangeEncoder(obs, c.Args[0], c.Args[1])
+	case "ANS0":
+		return entropy.NewANSRangeEncoder(obs, 0, c.Args[0], c.Args[1])
+	case "ANS1":
+		return entropy.NewANSRangeEncoder(obs, 1, c.Args[0], c.Args[1])
+	}
+	return nil, fmt.Errorf("no direct constructor for %s", c.Codec)
+}
+
+func directDecoder(c entCase, ibs kanzi.InputBitStream) (kanzi.EntropyDecoder, error) {
+	switch c.Codec {
+	case "HUFFMAN":
+		return entropy.NewHuffmanDecoder(ibs, int(c.Args[0]))
+	case "RANGE":
+		return entropy.NewRangeDecoder(ibs, c.Args[0])
+	case "ANS0":
+		return entropy.NewANSRangeDecoder(ibs, 0, c.Args[0])
+	case "ANS1":
+		return entropy.NewANSRangeDecoder(ibs, 1, c.Args[0])
+	}
+	return nil, fmt.Errorf("no direct constructor for %s", c.Codec)
 }
 
 const sentinel = uint64(0xA5C3F00F5A3C0FF0)
@@ -59,6 +92,36 @@ func entData(c entCase) []byte {
 			b[rnd.Intn(c.Len)] = byte(i)
 		}
 		return b
+	}
+	if c.Fam == "anti" {
+		// the worst case of the bit-wise coders: every bit is the one the codec's own predictor rates less likely (the output
+		// expands by 8-15 %; no ordinary data comes near that)
+		ctx := map[string]any{"entropy": c.Codec, "bsVersion": uint(6), "blockSize": uint(max(1024, (c.Len+15)&^15)), "jobs": uint(1), "size": uint(c.Len)}
+		var get func() int
+		var upd func(byte)
+		if c.Codec == "CM" {
+			if p, err := entropy.NewCMPredictor(&ctx); err == nil {
+				get, upd = p.Get, p.Update
+			}
+		} else if p, err := entropy.NewTPAQPredictor(&ctx); err == nil {
+			get, upd = p.Get, p.Update
+		}
+		if get != nil {
+			b := make([]byte, c.Len)
+			for i := range b {
+				var x byte
+				for bit := 7; bit >= 0; bit-- {
+					v := byte(0)
+					if get() < 2048 {
+						v = 1
+					}
+					upd(v)
+					x |= v << uint(bit)
+				}
+				b[i] = x
+			}
+			return b
+		}
 	}
 	var q10, base int
 	if n, _ := fmt.Sscanf(c.Fam, "geo:%d:%d:%d:%d", &r, &q10, &k, &base); n == 4 && k > 0 {
@@ -135,6 +198,9 @@ func entData(c entCase) []byte {
 func runEntropy(c entCase) tr.Ev {
 	ev := tr.Ev{"ev": "ENT", "id": c.ID, "codec": c.Codec, "len": c.Len, "fam": c.Fam, "lead": c.Lead, "enc": "none", "dec": "none",
 		"encBits": 0, "decBits": 0, "same": false, "sentinel": false, "msg": ""}
+	if len(c.Args) > 0 {
+		ev["args"] = fmt.Sprint(c.Args)
+	}
 	data := entData(c)
 	et, err := entropy.GetType(c.Codec)
 	if err != nil {
@@ -159,7 +225,13 @@ func runEntropy(c entCase) tr.Ev {
 			obs.WriteBits(0x2AAAAAAAAAAAAAAA>>(64-uint(c.Lead)), uint(c.Lead))
 		}
 		start := obs.Written()
-		ee, err := entropy.NewEntropyEncoder(obs, ctx(), et)
+		var ee kanzi.EntropyEncoder
+		var err error
+		if len(c.Args) > 0 {
+			ee, err = directEncoder(c, obs)
+		} else {
+			ee, err = entropy.NewEntropyEncoder(obs, ctx(), et)
+		}
 		if err != nil {
 			ev["enc"] = "error"
 			ev["msg"] = err.Error()
@@ -194,7 +266,13 @@ func runEntropy(c entCase) tr.Ev {
 			ibs.ReadBits(uint(c.Lead))
 		}
 		start := ibs.Read()
-		ed, err := entropy.NewEntropyDecoder(ibs, ctx(), et)
+		var ed kanzi.EntropyDecoder
+		var err error
+		if len(c.Args) > 0 {
+			ed, err = directDecoder(c, ibs)
+		} else {
+			ed, err = entropy.NewEntropyDecoder(ibs, ctx(), et)
+		}
 		if err != nil {
 			ev["dec"] = "error"
 			ev["msg"] = err.Error()
@@ -291,6 +369,45 @@ func cmdEntropy(args []string) int {
 		}
 		for ri, r := range residues {
 			add(codec, c+r, []string{"text", "skew", "alpha:64"}[(ci+ri)%3], []int{0, 3, 8}[(ci+ri)%3])
+		}
+	}
+	// constructor parameters: every log range and a few chunk sizes, through the public constructors
+	{
+		pfams := []string{"skew", "text", "alpha:2", "alpha:3", "rare:100:2", "rare:254:1", "random", "zeros", "geo:40:15:3:0"}
+		k := 0
+		addp := func(codec string, l int, args ...uint) {
+			cases = append(cases, entCase{ID: id, Codec: codec, Len: l, Fam: pfams[k%len(pfams)], Seed: *seed*131 + int64(id), Lead: []int{0, 3, 8}[k%3], Args: args})
+			id++
+			k++
+		}
+		for lr := uint(8); lr <= 16; lr++ {
+			for _, chunk := range []uint{1024, 4096, 16384} {
+				for _, l := range []int{100, 1500, 5000, 40000} {
+					if !*thorough && (k/7)%2 == 1 && l != 5000 {
+						k++
+						continue
+					}
+					addp("ANS0", l, chunk, lr)
+					addp("ANS1", l, chunk, lr)
+					addp("RANGE", l, chunk, lr)
+				}
+			}
+		}
+		for _, chunk := range []uint{1024, 2048, 4096, 16384, 65536} {
+			for _, l := range []int{100, 1023, 1024, 1025, 5000, 70000} {
+				addp("HUFFMAN", l, min(chunk, 16384))
+				addp("RANGE", l, chunk, 12)
+				addp("ANS0", l, chunk, 12)
+			}
+		}
+	}
+	// anti-model blocks for the bit-wise coders
+	for _, codec := range []string{"CM", "TPAQ", "TPAQX"} {
+		for li, l := range []int{33, 65, 100, 200, 500, 1000, 4000, 20000} {
+			if l > 5000 && !*thorough {
+				continue
+			}
+			add(codec, l, "anti", []int{0, 3, 8}[li%3])
 		}
 	}
 	// exact histograms: r rare symbols under a geometric ladder of dominant ones (prefix-code length limiting, table scaling)
